@@ -50,12 +50,21 @@ def gen(item, rng, tier):
         fill = bytes(rng.getrandbits(8) for _ in range(min(s, 64)))
         devs.append({'begin': cur, 'end': cur + s, 'fill': fill.hex()})
         cur += s
+    big = rng.random() < 0.04
+    if big:
+        # one device larger than 16 MiB: offsets at and beyond 2^24 inside a single device
+        bsz = (1 << 24) + rng.choice([0x10, 0x100, 0x1000])
+        bb = rng.choice([0x40000000, 0x100000000, 0x20000000])
+        devs = [d for d in devs if d['end'] <= bb or d['begin'] >= bb + bsz][:2]
+        devs.append({'begin': bb, 'end': bb + bsz})          # zero-filled: contents only arrive through accesses
     ops = []
-    nops = rng.choice([50, 120, 300, 500])
+    nops = rng.choice([50, 120, 300, 500]) if not big else 40
     for i in range(nops):
         d = rng.choice(devs)
         k = rng.random()
-        if k < 0.35:
+        if big and d['end'] - d['begin'] > (1 << 20) and k < 0.6:
+            addr = d['begin'] + (1 << 24) + rng.randrange(-12, 12)
+        elif k < 0.35:
             addr = d['end'] + rng.randrange(-9, 9)
         elif k < 0.6:
             addr = d['begin'] + rng.randrange(-9, 9)
@@ -91,7 +100,7 @@ class Model:
 
 def _fill(d):
     size = d['end'] - d['begin']
-    f = bytes.fromhex(d.get('fill', '')) or b'\0'
+    f = bytes.fromhex(d.get('fill') or '') or b'\0'
     return (f * (size // len(f) + 1))[:size]
 
 
@@ -133,25 +142,37 @@ def run(case):
     rams = []
     for d in case['devices']:
         ram = RAM(d['end'] - d['begin'])
-        ram.memory_array[:] = _fill(d)
+        if d.get('fill'):
+            f = _fill(d)
+            ram.memory_array[0:len(f)] = f
         rams.append(ram)
         arm.mem.memories.append(MemoryController(ram, d['begin'], d['end']))
     code = RAM(0x100)
     arm.mem.memories.append(MemoryController(code, CODE, CODE + 0x100))
     layout = '%s/%d' % (case['style'], len(case['devices']))
+    len0 = [len(x.memory_array) for x in rams]
 
     def check_all(op, idx, touched):
         for j, ((b, e, mb), ram) in enumerate(zip(model.devs, rams)):
-            if len(ram.memory_array) != e - b:
+            if len(ram.memory_array) != len0[j]:
                 viol.append({'oracle': 'hub.model', 'site': op['path'] + ':' + op['op'], 'cls': 'device_resized', 'tick': idx,
                              'detail': 'device %d [%#x,%#x) now has %d bytes after %s size %d at %#x' % (j, b, e, len(ram.memory_array), op['op'], op['size'], op['addr'])})
                 return False
-            if bytes(ram.memory_array) != bytes(mb):
-                k = next(x for x in range(e - b) if ram.memory_array[x] != mb[x])
+            if e - b > (1 << 20):
+                # very large device: compare its length (above) and the windows the history can reach
+                lo = (1 << 24) - 64
+                real_tail = bytes(ram.memory_array[lo:e - b]).ljust(e - b - lo, b'\0')      # bytes the device has not materialised read as zero
+                same = ram.memory_array[:64] == mb[:64] and real_tail == bytes(mb[lo:])
+                diff_at = None if same else next(x for x in list(range(64)) + list(range(lo, e - b)) if (ram.memory_array[x] if x < len(ram.memory_array) else 0) != mb[x])
+            else:
+                same = bytes(ram.memory_array) == bytes(mb)
+                diff_at = None if same else next(x for x in range(e - b) if ram.memory_array[x] != mb[x])
+            if not same:
+                k = diff_at
                 cls = 'wrong_bytes_written' if j == touched else 'spill_into_other_device'
                 viol.append({'oracle': 'hub.model', 'site': op['path'] + ':' + op['op'], 'cls': cls, 'tick': idx,
                              'detail': 'device %d [%#x,%#x) byte +%d is %#x, model %#x after %s size %d at %#x' % (
-                                 j, b, e, k, ram.memory_array[k], mb[k], op['op'], op['size'], op['addr'])})
+                                 j, b, e, k, ram.memory_array[k] if k < len(ram.memory_array) else 0, mb[k], op['op'], op['size'], op['addr'])})
                 return False
         return True
 
@@ -232,7 +253,7 @@ def run(case):
         if not check_all(op, idx, i):
             break
     stats['prints'] = M.env.print_count[0] - p0
-    dg = M.digest_of([bytes(x.memory_array) for x in rams])
+    dg = M.digest_of([bytes(x.memory_array[-4096:]) + bytes(x.memory_array[:4096]) for x in rams])
     return {'violations': viol, 'cover': cover, 'stats': stats, 'ticks': ticks, 'digest': dg, 'interesting': bool(viol)}
 
 
